@@ -155,6 +155,16 @@ theorem C31_prefix_atomic (fs : FS) (n : Nat) (chunks : List Nat) (crash : Crash
     rw [program_prefix fs n chunks crash (i + 1) hlt (.out n) (by simp)]
     simp [hlast]
 
+/-- **What the driver reports per run is sound.**  The flag "every operation before the last has an effect
+on the temporary sibling only" (`opsTrace`, compared with the implementation's mid-run observations) holds
+for the program of `_open_output`, and for *any* operation list it implies that every state before the
+last operation agrees with the start outside that path. -/
+theorem C31_mid_flag (n : Nat) (chunks : List Nat) (crash : Crash) :
+    (program (.out n) chunks crash).1.dropLast.all (Op.onlyB (.tmp n)) = true ∧
+    (∀ (t : Path) (ops : List Op) (fs : FS), ops.dropLast.all (Op.onlyB t) = true →
+      ∀ i, i < ops.length → ∀ q, q ≠ t → runOps fs (ops.take i) q = fs q) :=
+  ⟨program_midOnly n chunks crash, fun t ops fs h i hi q hq => midOnly_sound t ops fs h i hi q hq⟩
+
 /-! ## exact end state of a history -/
 
 /-- **Exact end state, from any starting directory.**  After any history of runs every output
